@@ -1,18 +1,27 @@
 import Chiritori.Props.C15
 import Chiritori.Lemmas.Erase
+import Chiritori.Lemmas.ItemLines
+import Chiritori.Lemmas.PiecesOut
 /-
   C16 — List items render the right lines, numbers, columns and valid JSON.
 
-  Proved (structure of the rendering, for every input):
-  * `marker_pad`: the start / end marker lines consist of spaces only up to the marker, and their length is
-    `9 + (bytes to the left, a tab counting 4)` - the column rule of the property for ASCII text;
-  * `zipLines_numbers`: the shown lines are numbered first, first+1, ... in order, one source line each;
-  * `json_shape`: the JSON form is `[` items `]` with one object per marker, in order, each object carrying the
-    same line_range as the pretty form (both come from `getLineRange`) and status Ready / Pending from the flag;
-  * `json_escape_safe`: the escaped code block contains no unescaped quote, backslash or control character.
-  Not proved yet: that the rendered lines are exactly the source lines first..last (needs the finders against the
-  line table as in C11) and that the JSON block equals the pretty block with colour codes stripped; the file
-  starting with a line break is the known finding D8.
+  Proved:
+  * `item_shows_source_lines`: for a text without carriage returns that does not begin with a line break (known
+    finding D8) and a region whose highlighted span does not end with a line break (`mid_of_last_char`: whenever
+    the region's last character is not one), the plain item is the start marker line, exactly the source lines
+    `first .. last` (`last + 1 - first` of them, from the text split at its line breaks), each behind its number in
+    the fixed-width column with tabs expanded, and the end marker line;
+  * `marker_pad`: the marker lines consist of spaces only up to the marker, `9 + (bytes to the left, a tab counting
+    4)` of them - the column rule of the property for ASCII text;
+  * `json_block_is_pretty_block`, `pretty_vs_json`: the pretty (coloured) form is, item by item, the JSON block with
+    colour codes inserted, under the same status and line range; if the text has no escape character of its own,
+    stripping ANSI colour sequences from a pretty block gives the JSON block;
+  * `json_shape`, `buildList_length`, `json_escape_safe`: one JSON object per region, in order; the escaped block
+    contains no unescaped quote, backslash or control character.
+  * `highlight_is_region` (C15's last clause): what stands between the colour codes is the text of the region.
+  Not proved: the same for CRLF texts (correspondence and reference renderer only; D17 was found there), serde_json
+  itself (modelled), the file starting with a line break (D8).  D18 (a line-break byte numbered with the next line)
+  was found while stating `item_shows_source_lines` and repaired.
 -/
 namespace Chiritori.Props.C16
 open Chiritori Chiritori.Spec
@@ -191,5 +200,247 @@ example :
            buildItem (bytesOf "a\n\tb <x>\ny</x> c\n".toList) 5 14 true false (some (2, 3)) with
      | .ok y, .ok x => stripAnsi y == x && y != x
      | _, _ => false) = true := by decide +kernel
+
+/-! ### the item shows the source lines first .. last -/
+
+theorem zipLines_nil : ∀ (nums : List Nat), zipLines nums [] = []
+  | [] => rfl
+  | _ :: is => by simp only [zipLines]; exact zipLines_nil is
+
+/-- numbering with truncation: the first `n` lines, numbered from `a` -/
+theorem zipLines_take : ∀ (n a : Nat) (ls : List (List Char)),
+    zipLines (List.range' a n) ls = ((ls.take n).zipIdx a).flatMap fun (l, i) => lineColumn i ++ l ++ ['\n']
+  | 0, _, _ => by simp [zipLines]
+  | n + 1, a, [] => by simp [zipLines_nil]
+  | n + 1, a, l :: ls => by
+    simp only [List.range'_succ, zipLines, List.take_succ_cons, List.zipIdx_cons, List.flatMap_cons]
+    rw [zipLines_take n (a + 1) ls]
+
+theorem count_take_of_none (b : Bytes) (i j : Nat) (hij : i ≤ j) (h : ∀ k, i ≤ k → k < j → b[k]? ≠ some NL) :
+    (b.take j).count NL = (b.take i).count NL := by
+  have e : b.take j = b.take i ++ (b.take j).drop i := by
+    have := List.take_append_drop i (b.take j)
+    rw [List.take_take, Nat.min_eq_left hij] at this
+    exact this.symm
+  have hz : ((b.take j).drop i).count NL = 0 := by
+    apply count_zero_of_none
+    intro k
+    rw [List.getElem?_drop, List.getElem?_take]
+    split
+    · exact h (i + k) (by omega) (by omega)
+    · simp
+  conv => lhs; rw [e]
+  rw [List.count_append, hz]
+  simp
+
+theorem marker_pad' (tabs pad : Nat) (rest : List Char) :
+    (List.replicate tabs tabspace).flatten ++ (List.replicate pad ' ' ++ rest) =
+      List.replicate (4 * tabs + pad) ' ' ++ rest := by
+  rw [← List.append_assoc, marker_pad]
+
+/-- the lines of the source: the text split at its line breaks -/
+def srcLines (s : List Char) : List (List Char) := linesT s []
+
+/-- C16, first clause: for a text without carriage returns that does not begin with a line break (known finding
+    D8), and a region whose highlighted span does not end with a line break, the plain item is the start marker
+    line, the source lines `first .. last` - exactly those, `last + 1 - first` of them - each behind its number,
+    tabs expanded, and the end marker line.  `first` / `last` are the line numbers `list` reports (`line_numbers`). -/
+theorem item_shows_source_lines (s : List Char) (start stop : Nat) (isRemoval : Bool)
+    (h1 : BPos (bytesOf s) start) (h2 : BPos (bytesOf s) stop) (hlt : start < stop)
+    (hcr : ∀ c ∈ s, c ≠ '\r') (h0 : (bytesOf s)[0]? ≠ some NL)
+    (a z : Nat) (ha : a = 1 + ((lineBreaks (bytesOf s)).filter fun p => decide (p < start)).length)
+    (hz : z = 1 + ((lineBreaks (bytesOf s)).filter fun p => decide (p < stop - 1)).length)
+    (hmid : (charsOf (geomOf (bytesOf s) start stop (some (a, z))).mid).getLast? ≠ some '\n') :
+    (((srcLines s).drop (a - 1)).take (z + 1 - a)).length = z + 1 - a ∧
+    buildItem (bytesOf s) start stop isRemoval false (some (a, z)) = .ok (
+      List.replicate (4 * (geomOf (bytesOf s) start stop (some (a, z))).startTabs
+        + (geomOf (bytesOf s) start stop (some (a, z))).startPad) ' ' ++ strMarkerStart ++ ['\n']
+      ++ replaceTabs (((((srcLines s).drop (a - 1)).take (z + 1 - a)).zipIdx a).flatMap
+          fun (l, i) => lineColumn i ++ l ++ ['\n'])
+      ++ List.replicate (4 * (geomOf (bytesOf s) start stop (some (a, z))).endTabs
+        + (geomOf (bytesOf s) start stop (some (a, z))).endPad) ' ' ++ strMarkerEnd) := by
+  have hlenb : (bytesOf s).length = blen s := length_bytesOf s
+  have hstartle : start ≤ (bytesOf s).length := by have := h2.2; omega
+  obtain ⟨a1, a2, a3⟩ := lineStartOf_spec (bytesOf s) start hstartle h0
+  obtain ⟨c1, c2, c3⟩ := lineEndOf_spec (bytesOf s) (stop - 1) (by have := h2.2; omega)
+  obtain ⟨lc1, _⟩ := lineEnd_facts s (stop - 1) (by have := h2.2; rw [hlenb] at this; omega)
+  obtain ⟨_, hce1, hce2⟩ := colorEnd_facts s start stop _ h2 lc1 hlt c1
+  have hg := itemGeom_ok s start stop (a, z) h1 h2 hlt
+  generalize hG : geomOf (bytesOf s) start stop (some (a, z)) = g at hmid hg ⊢
+  generalize hls : lineStartOf (bytesOf s) start = ls at a1 a2 a3
+  generalize hle : lineEndOf (bytesOf s) (stop - 1) = le at c1 c2 c3 hce1 hce2
+  generalize hcev : colorEndOf (bytesOf s) start stop le = ce at hce1 hce2
+  have hpre : g.pre = ((bytesOf s).take start).drop ls := by rw [← hG]; simp only [geomOf, hls]
+  have hmidE : g.mid = ((bytesOf s).take ce).drop start := by rw [← hG]; simp only [geomOf, hle, hcev]
+  have hpost : g.post = ((bytesOf s).take le).drop ce := by rw [← hG]; simp only [geomOf, hle, hcev]
+  -- the shown text: the bytes from the line start to the line end
+  generalize hW : charsOf (((bytesOf s).take le).drop ls) = W
+  have hWs : ∀ c ∈ W, c ∈ s := by
+    intro c hc; rw [← hW] at hc; exact slice_chars s _ _ c hc
+  have hrem : removedText false isRemoval g = W ++ ['\n'] := by
+    unfold removedText
+    have hid : (fun l => colSpan false isRemoval ++ l ++ colOff false) = (fun l : List Char => l) := by
+      funext l; simp [colSpan, colOff]
+    rw [hid, List.map_id', joinWith_rustLines _ (fun c hc => hcr c (by rw [hmidE] at hc; exact slice_chars s _ _ c hc)) hmid]
+    rw [← charsOf_append, ← charsOf_append, hpre, hmidE, hpost, slices_concat _ ls start ce a1 hce1,
+      slices_concat _ ls ce le (by omega) hce2, hW]
+  have hlinesW : rustLines (W ++ ['\n']) = linesT W [] :=
+    rustLines_terminated W [] (fun c hc => hcr c (hWs c hc)) (by simp)
+  -- counting line breaks
+  have hcA : a - 1 = ((bytesOf s).take ls).count NL := by
+    rw [ha, count_lineBreaks, count_take_of_none _ ls start a1 a3]; omega
+  have hcZ : z - 1 = ((bytesOf s).take (stop - 1)).count NL := by
+    rw [hz, count_lineBreaks]; omega
+  have hsplit1 : (bytesOf s).take (stop - 1) = (bytesOf s).take ls ++ ((bytesOf s).take (stop - 1)).drop ls := by
+    have := List.take_append_drop ls ((bytesOf s).take (stop - 1))
+    rw [List.take_take, Nat.min_eq_left (by omega)] at this
+    exact this.symm
+  have hsplit2 : ((bytesOf s).take (stop - 1)).drop ls ++ ((bytesOf s).take le).drop (stop - 1) =
+      ((bytesOf s).take le).drop ls := slices_concat _ ls (stop - 1) le (by omega) c1
+  have hk : z + 1 - a ≤ (linesT W []).length := by
+    rw [linesT_length, ← hW, count_charsOf, ← hsplit2, List.count_append]
+    have : ((bytesOf s).take (stop - 1)).count NL =
+        ((bytesOf s).take ls).count NL + (((bytesOf s).take (stop - 1)).drop ls).count NL := by
+      conv => lhs; rw [hsplit1]
+      rw [List.count_append]
+    omega
+  -- the source lines
+  have hs : s = charsOf ((bytesOf s).take ls) ++ (W ++ charsOf ((bytesOf s).drop le)) := by
+    have e1 : bytesOf s = (bytesOf s).take ls ++ (((bytesOf s).take le).drop ls ++ (bytesOf s).drop le) := by
+      have t1 := List.take_append_drop le (bytesOf s)
+      have t2 := List.take_append_drop ls ((bytesOf s).take le)
+      rw [List.take_take, Nat.min_eq_left (by omega)] at t2
+      rw [← List.append_assoc, t2, t1]
+    conv => lhs; rw [← charsOf_bytesOf s, e1]
+    rw [charsOf_append, charsOf_append, hW]
+  have hdrop : (srcLines s).drop (a - 1) = linesT (W ++ charsOf ((bytesOf s).drop le)) [] := by
+    unfold srcLines
+    rcases a2 with a2 | a2
+    · -- the region starts on the first line
+      have : ((bytesOf s).take ls).count NL = 0 := by rw [a2]; simp
+      rw [hcA, this, List.drop_zero]
+      conv => lhs; rw [hs, a2]
+      simp [charsOf]
+    · have hlspos : 0 < ls := by
+        cases hl0 : ls with
+        | zero => rw [hl0] at a2; simp at a2; exact absurd a2 h0
+        | succ n => omega
+      have e2 : (bytesOf s).take ls = (bytesOf s).take (ls - 1) ++ [NL] := by
+        have := List.take_succ (l := bytesOf s) (i := ls - 1)
+        rw [show ls - 1 + 1 = ls by omega, a2] at this
+        simpa using this
+      conv => lhs; rw [hs, e2, charsOf_append]
+      have : charsOf [NL] = ['\n'] := rfl
+      rw [this, List.append_assoc, List.singleton_append, linesT_append_nl]
+      have hlen : (linesT (charsOf ((bytesOf s).take (ls - 1))) []).length = a - 1 := by
+        rw [linesT_length, count_charsOf, hcA, e2, List.count_append]
+        simp
+      rw [List.drop_append_of_le_length (by omega), ← hlen, List.drop_length, List.nil_append]
+  have htake : ((srcLines s).drop (a - 1)).take (z + 1 - a) = (linesT W []).take (z + 1 - a) := by
+    rw [hdrop]
+    rcases c3 with c3 | c3
+    · rw [c3, List.drop_length]
+      simp [charsOf]
+    · have e3 : (bytesOf s).drop le = NL :: (bytesOf s).drop (le + 1) := by
+        have hlt' := lt_of_getElem?_some _ _ _ c3
+        rw [List.drop_eq_getElem_cons hlt']
+        congr 1
+        rw [List.getElem?_eq_getElem hlt'] at c3
+        injection c3
+      rw [e3]
+      have : charsOf (NL :: (bytesOf s).drop (le + 1)) = '\n' :: charsOf ((bytesOf s).drop (le + 1)) := rfl
+      rw [this, linesT_append_nl, List.take_append_of_le_length hk]
+  refine ⟨by rw [htake, List.length_take, Nat.min_eq_left hk], ?_⟩
+  unfold buildItem
+  rw [hg]
+  simp only
+  unfold renderItem
+  have hpl : colMarker false = [] := rfl
+  have hpo : colOff false = [] := rfl
+  simp only [hpl, hpo, List.append_nil, List.nil_append, List.append_assoc]
+  rw [marker_pad', marker_pad']
+  simp only [codeBlockOf, hrem, hlinesW, zipLines_take, htake, List.append_assoc]
+
+/-- the premise on the highlighted span holds for every region whose last character is not a line break (every
+    default-strategy region: it ends with the end delimiter; every wrapper part with a non-empty wrapper line);
+    the span is then the region itself -/
+theorem mid_of_last_char (s1 w s3 : List Char) (c : Char) (hc : c ≠ '\n') (hcr : c ≠ '\r') (lr : Option (Nat × Nat)) :
+    (geomOf (bytesOf (s1 ++ (w ++ [c]) ++ s3)) (blen s1) (blen s1 + blen (w ++ [c])) lr).mid = bytesOf (w ++ [c]) ∧
+    (charsOf (geomOf (bytesOf (s1 ++ (w ++ [c]) ++ s3)) (blen s1) (blen s1 + blen (w ++ [c])) lr).mid).getLast?
+      ≠ some '\n' := by
+  generalize hb : bytesOf (s1 ++ (w ++ [c]) ++ s3) = b
+  have hbe : b = bytesOf s1 ++ (bytesOf (w ++ [c]) ++ bytesOf s3) := by
+    rw [← hb, bytesOf_append, bytesOf_append, List.append_assoc]
+  have hl1 : (bytesOf s1).length = blen s1 := length_bytesOf _
+  have hl2 : (bytesOf (w ++ [c])).length = blen (w ++ [c]) := length_bytesOf _
+  have hpos2 : 0 < blen (w ++ [c]) := by
+    rw [blen_append]; simp only [blen]; have := Char.utf8Size_pos c; omega
+  obtain ⟨y, hy, hyc⟩ := bytesOf_last w c
+  -- the last byte of the region
+  have hlast : b[blen s1 + blen (w ++ [c]) - 1]? = some y := by
+    rw [hbe, List.getElem?_append_right (by omega), List.getElem?_append_left (by omega), hl1]
+    rw [List.getLast?_eq_getElem?, hl2] at hy
+    rw [show blen s1 + blen (w ++ [c]) - 1 - blen s1 = blen (w ++ [c]) - 1 by omega]
+    exact hy
+  have hyn : y ≠ NL := by
+    rcases hyc with rfl | rfl
+    · decide
+    · intro h; injection h with h; exact hc h
+  have hyr : y ≠ .lead '\r' := by
+    rcases hyc with rfl | rfl
+    · decide
+    · intro h; injection h with h; exact hcr h
+  have hstop : blen s1 + blen (w ++ [c]) ≤ b.length := by
+    rw [hbe]; simp only [List.length_append, hl1, hl2]; omega
+  obtain ⟨c1, c2, c3⟩ := lineEndOf_spec b (blen s1 + blen (w ++ [c]) - 1) (by omega)
+  have hle : blen s1 + blen (w ++ [c]) ≤ lineEndOf b (blen s1 + blen (w ++ [c]) - 1) := by
+    rcases c3 with c3 | c3
+    · omega
+    · by_cases he : lineEndOf b (blen s1 + blen (w ++ [c]) - 1) = blen s1 + blen (w ++ [c]) - 1
+      · rw [he, hlast] at c3
+        injection c3 with c3
+        exact absurd c3 hyn
+      · omega
+  have hce : colorEndOf b (blen s1) (blen s1 + blen (w ++ [c])) (lineEndOf b (blen s1 + blen (w ++ [c]) - 1)) =
+      blen s1 + blen (w ++ [c]) := by
+    unfold colorEndOf
+    simp only [Nat.min_eq_left hle]
+    rw [if_neg]
+    intro ⟨_, _, h3⟩
+    rw [hlast] at h3
+    injection h3 with h3
+    exact hyr h3
+  have hmid : (geomOf b (blen s1) (blen s1 + blen (w ++ [c])) lr).mid = bytesOf (w ++ [c]) := by
+    simp only [geomOf, hce]
+    rw [hbe, ← List.append_assoc, List.take_append_of_le_length (by simp [hl1, hl2]),
+      List.take_of_length_le (by simp [hl1, hl2]), List.drop_append_of_le_length (by omega), ← hl1, List.drop_length]
+    simp
+  refine ⟨hmid, ?_⟩
+  rw [hmid, charsOf_bytesOf, List.getLast?_concat]
+  intro h; injection h with h; exact hc h
+
+/-- C15, last clause: the highlighted text of an item - what stands between the colour codes, line by line - is the
+    text of its region (a region whose last character is not a line break, in a text without carriage returns) -/
+theorem highlight_is_region (s1 w s3 : List Char) (c : Char) (hc : c ≠ '\n') (hcr : ∀ d ∈ w ++ [c], d ≠ '\r')
+    (lr : Option (Nat × Nat)) (coloring isRemoval : Bool) :
+    let g := geomOf (bytesOf (s1 ++ (w ++ [c]) ++ s3)) (blen s1) (blen s1 + blen (w ++ [c])) lr
+    removedText coloring isRemoval g = charsOf g.pre
+      ++ joinWith ['\n'] ((rustLines (charsOf g.mid)).map fun l => colSpan coloring isRemoval ++ l ++ colOff coloring)
+      ++ charsOf g.post ++ ['\n'] ∧
+    joinWith ['\n'] (rustLines (charsOf g.mid)) = w ++ [c] := by
+  obtain ⟨hm, hl⟩ := mid_of_last_char s1 w s3 c hc (hcr c (by simp)) lr
+  refine ⟨rfl, ?_⟩
+  rw [hm, charsOf_bytesOf]
+  exact joinWith_rustLines _ hcr (by rw [List.getLast?_concat]; intro h; injection h with h; exact hc h)
+
+/-! Non-vacuity: the region `<x>` .. `</x>` over two lines of a four-line text, a tab in front of it. -/
+example :
+    let s := "a\n\tb <x>\ny</x> c\nd\n".toList
+    (bytesOf s)[0]? ≠ some NL ∧ (∀ c ∈ s, c ≠ '\r') ∧
+    (1 + ((lineBreaks (bytesOf s)).filter fun p => decide (p < 5)).length,
+     1 + ((lineBreaks (bytesOf s)).filter fun p => decide (p < 14 - 1)).length) = (2, 3) ∧
+    ((srcLines s).drop (2 - 1)).take (3 + 1 - 2) = ["\tb <x>".toList, "y</x> c".toList] ∧
+    (charsOf (geomOf (bytesOf s) 5 14 (some (2, 3))).mid).getLast? ≠ some '\n' := by
+  refine ⟨by decide, by decide, by decide +kernel, by decide +kernel, by decide +kernel⟩
 
 end Chiritori.Props.C16
